@@ -99,6 +99,15 @@ int main(int argc, char **argv) {
           Eigen::Matrix<double, Eigen::Dynamic, 1> P(N + 1); for (int i = 0; i <= N; ++i) P(i) = 0.5 * i - 0.25 * (i & 1); BoundaryConditions<1> bc; ++c.st.comparisons;
           auto run = [&](auto &opt, auto map) { if (!opt.setInitState(T, P, -2.5, bc)) { c.st.violate(unit, "valid problem rejected: " + opt.getLastError()); return; }
             Eigen::VectorXd x = opt.generateInitialGuess(), g; for (int i = 0; i < N; ++i) if (!bits_equal(x(i), map.toTau(T[i]))) { c.st.violate(unit, fmt("generateInitialGuess(): time variable %d is %.17g, toTau(%.17g) = %.17g (durations %s)", i, x(i), T[i], map.toTau(T[i]), fmt_vec(T).c_str()), {{"what", "optimizer-initial-guess"}}); return; }
+            // decoding is the map and nothing else: at the initial guess itself, and for the SAME vector after the optimizer was re-initialised with
+            // other durations (warm start), every duration is toTime(x_i) bit for bit (seeded change C17-m8: reference durations substituted
+            // for variables that equal a remembered guess)
+            { TimeCost tc0; RunCost<1> rc0 = RunCost<1>::mode(0); Eigen::VectorXd g0; (void)opt.evaluate(x, g0, tc0, rc0); const auto *o0 = opt.getOptimalSpline();
+              for (int i = 0; i < N; ++i) if (!o0 || !bits_equal(o0->getTimeSegments()[i], map.toTime(x(i)))) { c.st.violate(unit, fmt("evaluate(initial guess): duration %d is not toTime(x_%d) (durations %s)", i, i, fmt_vec(T).c_str()), {{"what", "optimizer-decode"}}); return; }
+              std::vector<double> T2 = T; for (double &t : T2) t *= 1.5; if (!opt.setInitState(T2, P, -2.5, bc)) { c.st.violate(unit, "valid problem rejected: " + opt.getLastError()); return; }
+              (void)opt.evaluate(x, g0, tc0, rc0); o0 = opt.getOptimalSpline();
+              for (int i = 0; i < N; ++i) if (!o0 || !bits_equal(o0->getTimeSegments()[i], map.toTime(x(i)))) { c.st.violate(unit, fmt("after re-initialisation with other durations, evaluate(previous initial guess): duration %d is %.17g, toTime(x_%d) = %.17g (durations %s)", i, o0 ? o0->getTimeSegments()[i] : 0.0, i, map.toTime(x(i)), fmt_vec(T).c_str()), {{"what", "optimizer-decode"}}); return; }
+              if (!opt.setInitState(T, P, -2.5, bc)) return; }
             for (int i = 0; i < N; ++i) x(i) += 0.03125 * (i + 1); TimeCost tc; RunCost<1> rc = RunCost<1>::mode(0); (void)opt.evaluate(x, g, tc, rc); const auto *os = opt.getOptimalSpline();
             for (int i = 0; i < N; ++i) if (!os || !bits_equal(os->getTimeSegments()[i], map.toTime(x(i)))) { c.st.violate(unit, fmt("evaluate(): duration %d is not toTime(x_%d) (durations %s)", i, i, fmt_vec(T).c_str()), {{"what", "optimizer-decode"}}); return; } };
           if (which == 0) { SplineOptimizer<1, CubicSplineND<1>, QuadInvTimeMap> o; run(o, QuadInvTimeMap()); } else { SplineOptimizer<1, CubicSplineND<1>, IdentityTimeMap> o; run(o, IdentityTimeMap()); } }
